@@ -139,7 +139,7 @@ impl<'a> Model<'a> {
             }
         };
         *self.expansions.entry(path.to_string()).or_insert(0) += 1;
-        if self.expansions[path] > 1 && file.items.iter().any(|i| matches!(i, Item::IncFn { via: Via::ConstPath, .. })) {
+        if self.expansions[path] > 1 && file.items.iter().any(|i| matches!(i, Item::IncFn { via: Via::ConstPath, .. } | Item::IncFn { via: Via::UnusedConst, .. })) {
             // the rendering declares a constant per such item: a second splice
             // re-declares it, which is an error of the test program itself
             return Err(Stop::Unspecified("file declaring a path constant spliced twice".to_string()));
@@ -173,13 +173,13 @@ impl<'a> Model<'a> {
                     }
                 },
                 Item::IncFn { kind, spelling, start, len, via } => {
-                    let needs_defs = !matches!(via, Via::Direct | Via::ConstPath | Via::Assert);
+                    let needs_defs = !matches!(via, Via::Direct | Via::ConstPath | Via::Assert | Via::UnusedConst);
                     if needs_defs && !self.case.defs_path.as_ref().map(|d| self.expansions.contains_key(d)).unwrap_or(false) {
                         return Err(Stop::Unspecified("definitions file not included before use".to_string()));
                     }
                     let container = match via {
                         // the path string stands in the file itself
-                        Via::Direct | Via::Arg | Via::NestedArg | Via::ConstPath | Via::Assert => path.to_string(),
+                        Via::Direct | Via::Arg | Via::NestedArg | Via::ConstPath | Via::Assert | Via::UnusedConst => path.to_string(),
                         _ => match &self.case.defs_path {
                             Some(d) if self.expansions.contains_key(d) => d.clone(),
                             _ => return Err(Stop::Unspecified("definitions file not included before use".to_string())),
@@ -200,7 +200,7 @@ impl<'a> Model<'a> {
                     };
                     self.touched.insert(q.clone());
                     let bits_before = self.bits.len();
-                    let emits = !matches!(via, Via::Assert);
+                    let emits = !matches!(via, Via::Assert | Via::UnusedConst);
                     match kind {
                         IncKind::Incbin => {
                             let n = content.len();
